@@ -710,6 +710,14 @@ func (b *Builder) UnBounded(o interface{}, x bool) {
 
 func (b *Builder) Default(o interface{}, defaultVal string) {
 	if h, valid := o.(HasDefault); valid {
+		switch o.(type) {
+		case *Leaf, *Typedef, *Choice:
+			// these take one default only (a second one used to panic)
+			if h.HasDefault() {
+				b.setErr(fmt.Errorf("%T has more than one default", o))
+				return
+			}
+		}
 		h.addDefault(defaultVal)
 	} else {
 		b.setErr(fmt.Errorf("%T does not support default", o))
